@@ -111,7 +111,7 @@ PROPS = {
                 "quarter 'oddities': rules named like files (cycles, incl. 'targets'), duplicate rule names (diamonds), principal ids "
                 "redefined by another file, files without allow rule, no top-level file; one directed K7 case. Each policy is queried "
                 "with 8 covering paths. State objects are hand-built (metadata JSON in DSSE envelopes). non-trivial = >=2 rule files",
-        "theorems": ["C06_terminates", "C06_sound", "C06_own_principals_refuted", "C06_top_level_match_is_protected", "C06_complete_without_terminating_rules"],
+        "theorems": ["C06_terminates", "C06_sound", "C06_own_principals_refuted", "C06_top_level_match_is_protected", "C06_complete_without_terminating_rules", "C06_reachable_match_is_protected"],
         "trusted": [
             "fnmatch is modelled for ASCII patterns without '[' (flags 0); bracket expressions are outside the model (the library "
             "panics on some of them, e.g. '[\u00e9' - observation)",
